@@ -13,7 +13,9 @@
 (* Operations (agent a, computation c):                                    *)
 (*   reg / unreg        register_computation / unregister_computation      *)
 (*   sub / subcb / subone / unsub   subscribe_computation (no callback,    *)
-(*                      callback, one-shot callback) / unsubscribe         *)
+(*                      callback, one-shot callback) / unsubscribe (all)   *)
+(*   unsubcb            unsubscribe one of several callbacks: the agent    *)
+(*                      stays subscribed (cbn = persistent callbacks)      *)
 (*   rep / unrep        register_replica / unregister_replica              *)
 (*   rsub / rsubcb / runsub         subscribe_replica / unsubscribe_replica*)
 (*   dl(ch)             deliver the oldest message of channel ch           *)
@@ -21,10 +23,11 @@
 (***************************************************************************)
 EXTENDS Integers, Sequences, FiniteSets, TLC
 
-OpKinds == {"reg", "unreg", "sub", "subcb", "subone", "unsub", "rep", "unrep", "rsub", "rsubcb", "runsub"}
+OpKinds == {"reg", "unreg", "sub", "subcb", "subone", "unsub", "unsubcb", "rep", "unrep", "rsub", "rsubcb", "runsub"}
 
 InitS(Agents, Comps) == [host |-> [c \in Comps |-> ""], reps |-> [c \in Comps |-> {}],
                          subC |-> [a \in Agents |-> {}], subR |-> [a \in Agents |-> {}],
+                         cbn |-> [a \in Agents |-> [c \in Comps |-> 0]],
                          \* what a itself knows for sure without any message: the computations it hosts
                          pendingUnreg |-> {}]
 
@@ -35,6 +38,7 @@ Enabled(s, op) ==
     [] op.k = "unreg"  -> s.host[op.c] = op.a
     [] op.k \in {"sub", "subcb", "subone"} -> s.host[op.c] # op.a
     [] op.k = "unsub"  -> op.c \in s.subC[op.a]
+    [] op.k = "unsubcb" -> s.cbn[op.a][op.c] >= 2
     [] op.k = "rep"    -> s.host[op.c] # "" /\ s.host[op.c] # op.a /\ op.a \notin s.reps[op.c] /\ op.c \in s.subC[op.a]
     [] op.k = "unrep"  -> op.a \in s.reps[op.c]
     [] op.k \in {"rsub", "rsubcb"} -> s.host[op.c] = op.a \/ op.c \in s.subC[op.a]
@@ -44,9 +48,11 @@ Enabled(s, op) ==
 Apply(s, op) ==
   CASE op.k = "reg"    -> [s EXCEPT !.host[op.c] = op.a]
     \* unregister_computation also drops the agent's own subscription to that computation
-    [] op.k = "unreg"  -> [s EXCEPT !.host[op.c] = "", !.subC[op.a] = @ \ {op.c}]
-    [] op.k \in {"sub", "subcb", "subone"} -> [s EXCEPT !.subC[op.a] = @ \cup {op.c}]
-    [] op.k = "unsub"  -> [s EXCEPT !.subC[op.a] = @ \ {op.c}]
+    [] op.k = "unreg"  -> [s EXCEPT !.host[op.c] = "", !.subC[op.a] = @ \ {op.c}, !.cbn[op.a][op.c] = 0]
+    [] op.k \in {"sub", "subone"} -> [s EXCEPT !.subC[op.a] = @ \cup {op.c}]
+    [] op.k = "subcb"  -> [s EXCEPT !.subC[op.a] = @ \cup {op.c}, !.cbn[op.a][op.c] = @ + 1]
+    [] op.k = "unsub"  -> [s EXCEPT !.subC[op.a] = @ \ {op.c}, !.cbn[op.a][op.c] = 0]
+    [] op.k = "unsubcb" -> [s EXCEPT !.cbn[op.a][op.c] = @ - 1]
     [] op.k = "rep"    -> [s EXCEPT !.reps[op.c] = @ \cup {op.a}]
     [] op.k = "unrep"  -> [s EXCEPT !.reps[op.c] = @ \ {op.a}]
     [] op.k \in {"rsub", "rsubcb"} -> [s EXCEPT !.subR[op.a] = @ \cup {op.c}]
